@@ -30,6 +30,9 @@ Qed.
 Lemma two_neq0 : two <> 0.
 Proof. unfold two. intro H. discriminate H. Qed.
 
+(* [field] does not accept the constant [two] as an atom *)
+Ltac field2 := unfold two; field; repeat split; try (let HH := fresh in intro HH; discriminate HH).
+
 Lemma Qc_eqb_eq x y : Qc_eqb x y = true -> x = y.
 Proof. unfold Qc_eqb. intro H. apply Qc_is_canon. apply Qeq_bool_eq. exact H. Qed.
 
@@ -380,7 +383,7 @@ Proof.
   rewrite coef_pderiv, coef_pscale in C.
   rewrite (peq_pshift _ _ m h (pderiv_pantider p) k) in C.
   assert (N := of_nat_S_neq0 k).
-  transitivity (of_nat (S k) * coef (pshift G m h) (S k) / of_nat (S k)).
+  transitivity (of_nat (S k) * coef (pshift (pantider p) m h) (S k) / of_nat (S k)).
   - field. exact N.
   - rewrite C. field. exact N.
 Qed.
@@ -399,7 +402,7 @@ Lemma sum_zero n (f : nat -> Qc) : (forall k, (k < n)%nat -> f k = 0) -> sum n f
 Proof.
   induction n as [|n IH]; intro H.
   - reflexivity.
-  - cbn [sum]. rewrite IH, H; auto. ring.
+  - cbn [sum]. rewrite IH, H by auto. ring.
 Qed.
 
 Lemma sum_add n (f g : nat -> Qc) : sum n (fun k => f k + g k) = sum n f + sum n g.
@@ -408,8 +411,8 @@ Proof. induction n as [|n IH]; cbn [sum]; [ring | rewrite IH; ring]. Qed.
 Lemma sum_scal n x (f : nat -> Qc) : sum n (fun k => x * f k) = x * sum n f.
 Proof. induction n as [|n IH]; cbn [sum]; [ring | rewrite IH; ring]. Qed.
 
-Lemma sum_swap n m' (f : nat -> nat -> Qc) :
-  sum n (fun i => sum m' (fun j => f i j)) = sum m' (fun j => sum n (fun i => f i j)).
+Lemma sum_swap n n2 (f : nat -> nat -> Qc) :
+  sum n (fun i => sum n2 (fun j => f i j)) = sum n2 (fun j => sum n (fun i => f i j)).
 Proof.
   induction n as [|n IH].
   - cbn [sum]. symmetry. apply sum_zero. reflexivity.
@@ -435,7 +438,10 @@ Proof.
   - lia.
   - cbn [sum]. destruct n as [|n].
     + cbn [sum]. ring.
-    + rewrite IH by (try lia; intros; apply H; lia). rewrite H by lia. ring.
+    + rewrite IH.
+      * rewrite (H (S n)) by lia. ring.
+      * intros k Hk. apply H. lia.
+      * lia.
 Qed.
 
 Lemma sum_more n n' (f : nat -> Qc) :
@@ -445,7 +451,10 @@ Proof.
   - replace n with 0%nat by lia. reflexivity.
   - destruct (Nat.eq_dec n (S n')) as [E|E].
     + subst n. reflexivity.
-    + cbn [sum]. rewrite IH by (try lia; intros; apply Z; lia). rewrite Z by lia. ring.
+    + cbn [sum]. rewrite IH.
+      * rewrite (Z n') by lia. ring.
+      * lia.
+      * intros k Hk. apply Z. lia.
 Qed.
 
 (* ------------------------------------------------------------------ *)
@@ -504,8 +513,9 @@ Qed.
 Lemma lincomb_pad n n' c : (n <= n')%nat -> peq (lincomb n' (pad n c)) (lincomb n c).
 Proof.
   intros H j. rewrite !coef_lincomb.
-  rewrite (sum_more n n') by
-    (try exact H; intros k Hk; unfold pad; destruct (Nat.ltb_spec k n); [lia | ring]).
+  rewrite (sum_more n n').
+  2: exact H.
+  2: { intros k Hk. unfold pad. destruct (Nat.ltb_spec k n); [lia | ring]. }
   apply sum_ext. intros k Hk. unfold pad. destruct (Nat.ltb_spec k n); [reflexivity | lia].
 Qed.
 
@@ -588,7 +598,7 @@ Qed.
 
 Lemma node_ab_affine a b (xi : vec) j :
   node_ab a b xi j = (a + b) / two + (b - a) / two * xi j.
-Proof. unfold node_ab. field. apply two_neq0. Qed.
+Proof. unfold node_ab. field2. Qed.
 
 (* the Legendre coefficients of p on [a, b] *)
 Lemma poly_on_interval n0 p a b : (length p <= n0 <= NMAX)%nat ->
@@ -615,11 +625,12 @@ Proof.
     unfold coeffs. apply mv_ext. intros j _.
     rewrite peval_pshift, node_ab_affine. reflexivity. }
   unfold calc_igral. rewrite V by lia. unfold pad. cbn [Nat.ltb Nat.leb].
-  replace a with (m - h) at 2 by (unfold m, h; field; apply two_neq0).
-  replace b with (m + h) at 2 by (unfold m, h; field; apply two_neq0).
+  assert (Ea : m - h = a) by (unfold m, h; field2).
+  assert (Eb : m + h = b) by (unfold m, h; field2).
+  transitivity (pint p (m - h) (m + h)); [| rewrite Ea, Eb; reflexivity].
   rewrite pint_shift. rewrite (pint_ext _ _ _ _ Hc).
   rewrite pint_lincomb_ref by lia.
-  unfold h. field. apply two_neq0.
+  unfold h. field2.
 Qed.
 
 (* the coefficient vectors of two rules (n <= n' nodes, e.g. depth d and d+1)
@@ -658,6 +669,27 @@ Qed.
 Lemma done_when_err_zero a b n (c_old c_new : vec) igral tol :
   (forall k, (k < n)%nat -> c_old k = c_new k) -> done_sq (err_sq a b n c_old c_new) igral tol.
 Proof. intro H. left. apply err_sq_zero. exact H. Qed.
+
+(* the polynomial family of C08 (degree <= 12 < 17): the estimate of the rule
+   with n' >= n nodes is exact, the error estimate against the rule with n nodes
+   is 0, done() holds for every tolerance *)
+Lemma estimate_exact_and_done n n' (xi xi' : vec) (Vinv Vinv' : mat) a b p tol :
+  (n <= n')%nat -> (n' <= NMAX)%nat ->
+  left_inverse n Vinv (Vmat xi) -> left_inverse n' Vinv' (Vmat xi') -> (length p <= n)%nat ->
+  let c_old := pad n (coeffs n Vinv (fun j => peval p (node_ab a b xi j))) in
+  let c_new := coeffs n' Vinv' (fun j => peval p (node_ab a b xi' j)) in
+  calc_igral a b c_new = pint p a b /\
+  err_sq a b n' c_old c_new = 0 /\
+  done_sq (err_sq a b n' c_old c_new) (calc_igral a b c_new) tol.
+Proof.
+  intros Hnn Hn' L L' Hp c_old c_new.
+  assert (A : forall k, (k < n')%nat -> c_old k = c_new k).
+  { intros k Hk. unfold c_old, c_new. symmetry. apply coeffs_next_depth; assumption. }
+  split; [| split].
+  - apply igral_exact_poly; [assumption | assumption | lia].
+  - apply err_sq_zero. exact A.
+  - apply done_when_err_zero. exact A.
+Qed.
 
 (* linearity of calc_igral in the function values, scaling with (b - a) *)
 Lemma calc_igral_linear n (Vinv : mat) a b (f g : vec) x y :
@@ -729,12 +761,12 @@ Proof.
     unfold coeffs. apply mv_ext. intros j _.
     rewrite (peval_ext (lincomb np _) (lincomb np cP)).
     + rewrite <- (peval_ext _ _ _ HcP). rewrite peval_pshift. f_equal.
-      unfold m, h, m', h', a', b'. field. apply two_neq0.
+      unfold m, h, m', h', a', b'. field2.
     + intro k. rewrite !coef_lincomb. apply sum_ext. intros k' Hk'. rewrite VP by exact Hk'. reflexivity.
   - unfold pad. destruct (Nat.ltb_spec i n0) as [Hlt|Hge]; [| reflexivity].
-    rewrite <- (R n0 xi0 Vinv0 (le_n _) L0 i Hlt).
-    + unfold pad. destruct (Nat.ltb_spec i n0); [| lia].
-      unfold coeffs. apply mv_ext. intros j _. rewrite node_ab_affine. reflexivity.
+    assert (Q := R n0 xi0 Vinv0 (le_n _) L0 i Hlt). unfold pad in Q.
+    destruct (Nat.ltb_spec i n0) in Q; [| lia].
+    rewrite <- Q. unfold coeffs. apply mv_ext. intros j _. rewrite node_ab_affine. reflexivity.
 Qed.
 
 (* additivity of the estimates over a split, for polynomials of degree < n0 *)
@@ -749,19 +781,14 @@ Proof.
 Qed.
 
 (* ------------------------------------------------------------------ *)
-(* the hypotheses are satisfiable: a 5-point rule with rational nodes
-   -1, -7/10, 0, 7/10, 1 and the exact inverse of its Legendre matrix,
-   computed here by Gauss-Jordan elimination and checked by computation *)
+(* the hypotheses are satisfiable: rules with 5 and 9 rational nodes
+   (-1, -7/10, 0, 7/10, 1 and -1, -9/10, -7/10, -2/5, 0, ...; the 5 nodes are
+   nested in the 9) and the exact inverses of their Legendre matrices, found by
+   Gauss-Jordan elimination outside Coq and checked here by computation *)
 
-Definition qc (n : Z) (d : positive) : Qc := Q2Qc (n # d).
+Definition qc (z : Z) (d : positive) : Qc := Q2Qc (z # d).
 
-Definition ex_nodes : vec := fun j =>
-  nth j [qc (-1) 1; qc (-7) 10; qc 0 1; qc 7 10; qc 1 1] 0.
-
-(* Lagrange: Vinv_kj = coefficient of P_k in the j-th Lagrange polynomial; we
-   simply give the inverse by solving with the monomial basis: rows found by
-   elimination outside Coq, checked inside *)
-Fixpoint list_mat (rows : list (list Qc)) : mat :=
+Definition list_mat (rows : list (list Qc)) : mat :=
   fun i j => nth j (nth i rows []) 0.
 
 Definition left_inverse_b (n : nat) (Vinv V : mat) : bool :=
@@ -773,3 +800,39 @@ Proof.
   specialize (H i ltac:(apply in_seq; lia)). rewrite forallb_forall in H.
   apply Qc_eqb_eq. apply H. apply in_seq. lia.
 Qed.
+
+Definition ex_nodes5 : vec := fun j =>
+  nth j [qc (-1) 1; qc (-7) 10; qc (0) 1; qc (7) 10; qc (1) 1] 0.
+
+Definition ex_Vinv5 : mat := list_mat
+  [[qc (11) 306; qc (2000) 7497; qc (58) 147; qc (2000) 7497; qc (11) 306];
+   [qc (-11) 102; qc (-200) 357; qc (0) 1; qc (200) 357; qc (11) 102];
+   [qc (257) 1071; qc (10000) 52479; qc (-886) 1029; qc (10000) 52479; qc (257) 1071];
+   [qc (-20) 51; qc (200) 357; qc (0) 1; qc (-200) 357; qc (20) 51];
+   [qc (80) 357; qc (-8000) 17493; qc (160) 343; qc (-8000) 17493; qc (80) 357]].
+
+Definition ex_nodes9 : vec := fun j =>
+  nth j [qc (-1) 1; qc (-9) 10; qc (-7) 10; qc (-2) 5; qc (0) 1; qc (2) 5; qc (7) 10; qc (9) 10; qc (1) 1] 0.
+
+Definition ex_Vinv9 : mat := list_mat
+  [[qc (37039) 2563974; qc (99550) 1260441; qc (630250) 5195421; qc (408725) 2270268; qc (105251) 500094; qc (408725) 2270268; qc (630250) 5195421; qc (99550) 1260441; qc (37039) 2563974];
+   [qc (-37039) 854658; qc (-9955) 46683; qc (-63025) 247401; qc (-81745) 378378; qc (0) 1; qc (81745) 378378; qc (63025) 247401; qc (9955) 46683; qc (37039) 854658];
+   [qc (1050194) 14101857; qc (3835750) 13864851; qc (8541250) 57149631; qc (-6002875) 24972948; qc (-2862781) 5501034; qc (-6002875) 24972948; qc (8541250) 57149631; qc (3835750) 13864851; qc (1050194) 14101857];
+   [qc (-214255) 2014551; qc (-6095) 24453; qc (177475) 1166319; qc (999655) 1783782; qc (0) 1; qc (-999655) 1783782; qc (-177475) 1166319; qc (6095) 24453; qc (214255) 2014551];
+   [qc (2360140) 20369349; qc (421600) 2225223; qc (-42268000) 82549467; qc (-1039175) 9018009; qc (284230) 441441; qc (-1039175) 9018009; qc (-42268000) 82549467; qc (421600) 2225223; qc (2360140) 20369349];
+   [qc (-2020000) 16665831; qc (-12500) 202293; qc (5762500) 9648639; qc (-4450000) 7378371; qc (0) 1; qc (4450000) 7378371; qc (-5762500) 9648639; qc (12500) 202293; qc (2020000) 16665831];
+   [qc (2440000) 14101857; qc (-250000) 1066527; qc (-7750000) 57149631; qc (250000) 480249; qc (-1780000) 2750517; qc (250000) 480249; qc (-7750000) 57149631; qc (-250000) 1066527; qc (2440000) 14101857];
+   [qc (-2000000) 8729721; qc (500000) 953667; qc (-2500000) 5054049; qc (1000000) 3864861; qc (0) 1; qc (-1000000) 3864861; qc (2500000) 5054049; qc (-500000) 953667; qc (2000000) 8729721];
+   [qc (3200000) 26189163; qc (-8000000) 25749009; qc (40000000) 106135029; qc (-4000000) 11594583; qc (1600000) 5108103; qc (-4000000) 11594583; qc (40000000) 106135029; qc (-8000000) 25749009; qc (3200000) 26189163]].
+
+Lemma ex_left_inverse5 : left_inverse 5 ex_Vinv5 (Vmat ex_nodes5).
+Proof. apply left_inverse_b_sound. vm_compute. reflexivity. Qed.
+
+Lemma ex_left_inverse9 : left_inverse 9 ex_Vinv9 (Vmat ex_nodes9).
+Proof. apply left_inverse_b_sound. vm_compute. reflexivity. Qed.
+
+(* a concrete instance: x^4 - x on [0, 3] with the 5-point rule: 3^5/5 - 3^2/2 *)
+Lemma ex_igral :
+  calc_igral 0 (qc 3 1) (coeffs 5 ex_Vinv5 (fun j => peval [0; - (1); 0; 0; 1] (node_ab 0 (qc 3 1) ex_nodes5 j)))
+  = qc 441 10.
+Proof. apply Qc_eqb_eq. vm_compute. reflexivity. Qed.
